@@ -10,7 +10,7 @@ GNext ==
   \/ \E n \in Nodes, t \in Ticks : Fire(n, t) /\ hist' = Append(hist, Rec(n, t, "Fire", ""))
   \/ \E n \in Nodes, t \in Ticks : Tell(n, t) /\ hist' = Append(hist, Rec(n, t, "Tell", ""))
   \/ \E n \in Nodes, t \in Ticks, r \in {"fresh", "stale"} : Check(n, t, r) /\ hist' = Append(hist, Rec(n, t, "Check", r))
-  \/ \E n \in Nodes, t \in Ticks, r \in {"won", "lost", "err"} : Claim(n, t, r) /\ hist' = Append(hist, Rec(n, t, "Claim", r))
+  \/ \E n \in Nodes, t \in Ticks, r \in ClaimOutcomes : Claim(n, t, r) /\ hist' = Append(hist, Rec(n, t, "Claim", r))
   \/ \E t \in Ticks : Expire(t) /\ hist' = Append(hist, Rec("", t, "Expire", ""))
 GSpec == GInit /\ [][GNext]_<<vars, hist>>
 Finished == \A th \in Th : pc[th] = "done"
